@@ -85,6 +85,24 @@ def field_cases(ctx, n):
     return cases
 
 
+def frag_field_cases(ctx):
+    """fragments and tails of fragmentation contexts: offset, more-fragments flag and total length as requested (the
+    field clauses of the statement), for payloads up to the sizes where 8 * length no longer fits 16 bits"""
+    from props import c07
+    r = ctx.rng
+    out = []
+    for j, (n, reqs) in enumerate([(8200, [("tail", 185), ("tail", 0), ("fragment", 0, 8192), ("fragment", 1000, 8200)]),
+                                   (20, [("fragment", 0, 1), ("fragment", 1, 1), ("tail", 2), ("datagram",), ("tail", 0), ("fragment", 0, 3)]),
+                                   (43, [("tail", 0), ("tail", 5), ("fragment", 2, 2)]),
+                                   (17000, [("tail", 2000), ("fragment", 2100, 40)])]):
+        payload = bytes(r.getrandbits(8) for _ in range(n))
+        c = c07.frag_case("g%d" % j, r, payload, reqs, {"src": ip("10.0.0.1"), "dst": ip("10.0.0.2"), "id": 300 + j,
+                                                         "df": j % 2 == 0, "evil": j % 3 == 0}, None)
+        c.gen["fragcheck"] = True
+        out.append(c)
+    return out
+
+
 def run(ctx):
     n = 500 if ctx.thorough else 90
     cases = []
@@ -95,7 +113,7 @@ def run(ctx):
         cases.append(c)
     fcs = field_cases(ctx, 120 if ctx.thorough else 40)
     bcs = boundary_cases(ctx)
-    kcs = carry.ip_id_cases(ctx, 24 if ctx.thorough else 8)
+    kcs = carry.ip_id_cases(ctx, 24 if ctx.thorough else 8) + carry.tunnel_len_cases(ctx, 48 if ctx.thorough else 12) + frag_field_cases(ctx)
     cases += fcs + bcs + kcs
     # data files are addressed by absolute path: patch the placeholder once the work dir is known
     wd = common.workdir("c02pre")
@@ -106,7 +124,7 @@ def run(ctx):
     diff.run_both(ctx, "c02", cases)
     queries, owners = [], []
     for c in cases:
-        ctx.count("boundary" if c.name[0] == "b" else "fields" if c.name[0] == "f" else "carry-directed" if c.name[0] == "k" else "random")
+        ctx.count("boundary" if c.name[0] == "b" else "fields" if c.name[0] == "f" else "carry-directed" if c.name[0] in "ku" else "frag-fields" if c.name[0] == "g" else "random")
         if not diff.triage(ctx, c):
             continue
         oki, hi = headers(c.impl.pcap)
@@ -121,6 +139,17 @@ def run(ctx):
         pm = [(r, dp, d[:20], len(d)) for r, dp, d in hm]
         c.gen = c.gen or {}
         c.gen["proj_equal"] = (pi == pm)
+        if (c.gen or {}).get("fragcheck") and hi:
+            from props import c07
+            for q, (rec, depth, d) in zip(c.gen["reqs"], [x for x in hi if x[1] == 0]):
+                tot, ident, fo, ttl, proto, cs, src, dst = struct.unpack(">HHHBBHII", d[2:20])
+                off, mf, data = c07.expected(c.gen["payload"], q)
+                o = c.gen["opts"]
+                want_fo = (off & 0x1fff) | (0x8000 if o.get("evil") else 0) | (0x4000 if o.get("df") else 0) | (0x2000 if mf else 0)
+                if fo != want_fo or tot != 20 + len(data):
+                    ctx.fail("ipv4-frag-fields", "request %s: flags/offset %#06x total length %d, expected %#06x and %d"
+                             % (q, fo, tot, want_fo, 20 + len(data)), diff.replay_of(c))
+                    break
         if c.name[0] == "f" and hi:
             want, given, d = c.gen["want"], c.gen["given"], hi[0][2]
             tot, ident, frag, ttl, proto, cs, src, dst = struct.unpack(">HHHBBHII", d[2:20])
